@@ -63,7 +63,7 @@ impl rustc_driver::Callbacks for Cb {
                     }
                     TerminatorKind::Assert { msg, .. } => {
                         let _ = writeln!(out, "{{\"k\":\"assert\",\"crate\":\"{}\",\"caller\":\"{}\",\"msg\":\"{}\",\"file\":\"{}\",\"line\":{},\"exp\":{}}}",
-                            krate, esc(&caller), esc(&format!("{:?}", msg).chars().take(60).collect::<String>()), esc(&file), loc.line, from_exp);
+                            krate, esc(&caller), esc(&format!("{:?}", msg).chars().take(160).collect::<String>()), esc(&file), loc.line, from_exp);
                     }
                     _ => {}
                 }
